@@ -40,7 +40,10 @@ RULE = ('trees to depth 4 over And/Or/Not/Switch (with and without default=) who
         'every truth assignment of its slot atoms occurs (2^k, k<=4) plus one faulting value per slot; the '
         'same trees are also built with & | ~ (including reflected and unsupported operand pairs); all 32 '
         'Check keyword combinations x argument variants x targets; M op c for all ordered pairs of a value '
-        'pool x 6 operators (thorough) / a sample (quick); constructor errors. non-trivial = the tree has a '
+        'pool x 6 operators (thorough) / a sample (quick); constructor errors; every tree is ALSO evaluated '
+        'as ONE spec object on all its targets - consecutive glom calls, and one call over the list of '
+        'targets - each call judged against its own target (state kept in a spec object shows up); '
+        'operator trees put constructor-built And / Or with default= on either side. non-trivial = the tree has a '
         'combinator with >= 2 children, or a Check with >= 1 condition, or the outcome is not a plain pass; '
         'distinct = distinct (spec or operator expression, target)')
 TRUSTED = ["Python's ==, <, <=, >, >=, bool(), isinstance, type() and item access on the generated tree "
@@ -384,18 +387,31 @@ def run_impl(case):
     out = dict(case)
     out.pop('impl', None)
     out.pop('impl_bare', None)
-    target = dec_v(case['target'])
+    out.pop('impl_seq', None)
     try:
-        if 'ops' in case:
+        if case.get('ops') is not None:
             spec = build_ops(case['ops'])
         else:
             spec = build_spec(case['spec'])
     except Exception as e:
+        if 'targets' in case:
+            out['impl_seq'] = [{'ctor': type(e).__name__}]
+            return out
         out['impl'] = {'ctor': type(e).__name__}
         out['impl_bare'] = None
         return out
+    if 'targets' in case:
+        # ONE spec object, consecutive calls: each call must decide its own target
+        m = glom.Match(spec)
+        seq = []
+        for tj in case['targets']:
+            t = dec_v(tj)
+            seq.append(observe(lambda: glom.glom(t, m)))
+        out['impl_seq'] = seq
+        return out
+    target = dec_v(case['target'])
     out['impl'] = observe(lambda: glom.glom(target, glom.Match(spec)))
-    if mode_free(case.get('ops', case.get('spec'))):
+    if mode_free(case.get('ops') if case.get('ops') is not None else case.get('spec')):
         out['impl_bare'] = observe(lambda: glom.glom(target, spec))
     else:
         out['impl_bare'] = None
@@ -488,6 +504,10 @@ class Gen:
             return {'k': 'not', 'c': self.tree(depth - 1, slots, atoms)}
         n = r.choice([1, 2, 2, 3])
         cases = [[self.tree(depth - 1, slots, atoms), self.tree(depth - 1, slots, atoms)] for _ in range(n)]
+        if r.random() < 0.4:
+            # a catch-all case keyed by a plain type after the value-dependent ones
+            cases.append([{'k': 'ty', 'n': r.choice(['tuple', 'object', 'tuple', 'int'])},
+                          r.choice([{'k': 'val', 'v': jv('by-type')}, self.const_leaf()])])
         d = self.default() if r.random() < 0.35 else None
         return {'k': 'switch', 'cases': cases, 'd': d, 'as_dict': r.random() < 0.3}
 
@@ -508,7 +528,15 @@ class Gen:
         k = r.choice(['and', 'and', 'or', 'or', 'inv'])
         if k == 'inv':
             return {'inv': self.optree(depth - 1, slots, atoms)}
-        return {k: [self.optree(depth - 1, slots, atoms), self.optree(depth - 1, slots, atoms)]}
+        left = self.optree(depth - 1, slots, atoms)
+        if r.random() < 0.3:
+            # a constructor-built And / Or (often carrying a default) as the RIGHT operand
+            kk = k if r.random() < 0.8 else ('or' if k == 'and' else 'and')
+            right = {'leaf': {'k': kk, 'cs': [self.tree(0, slots, atoms) for _ in range(r.choice([1, 2, 2]))],
+                              'd': self.default() if r.random() < 0.7 else None}}
+        else:
+            right = self.optree(depth - 1, slots, atoms)
+        return {k: [left, right]}
 
 
 def has_t_operand(j):
@@ -693,6 +721,8 @@ def scalar_tree_cases(rng, n):
         spec = tree(rng.choice([1, 2, 3]))
         for t in rng.sample(POOL, 3):
             yield {'spec': spec, 'target': jv(t)}
+        # same object on several targets, several of them of the same type
+        yield from seq_cases(rng, {'spec': spec}, [jv(t) for t in rng.sample(POOL[:12], 5) + rng.sample(POOL, 2)])
 
 
 def generate(rng, tier, scale, **focus):
@@ -708,8 +738,10 @@ def generate(rng, tier, scale, **focus):
         rng.shuffle(slots)
         slots = slots[:rng.choice([1, 2, 3, 4, 4])]
         spec = g.tree(rng.choice([1, 2, 3, 4]), slots, atoms)
-        for t in targets_for(atoms, rng):
+        ts = targets_for(atoms, rng)
+        for t in ts:
             yield {'spec': spec, 'target': t}
+        yield from seq_cases(rng, {'spec': spec}, ts)
     # the same kind of tree written with & | ~
     for n in range(n_ops):
         g = Gen(rng)
@@ -727,8 +759,11 @@ def generate(rng, tier, scale, **focus):
         except TypeError:
             if rng.random() < 0.8:   # keep some operand pairs without an overload
                 continue
-        for t in targets_for(atoms, rng, with_faults=rng.random() < 0.3):
+        ts = targets_for(atoms, rng, with_faults=rng.random() < 0.3)
+        for t in ts:
             yield {'ops': ops, 'target': t}
+        if rng.random() < 0.5:
+            yield from seq_cases(rng, {'ops': ops}, ts)
     yield from check_cases(rng, (5 if quick else 60) * scale)
     yield from msub_cases(rng, (300 if quick else 6000) * scale)
     yield from scalar_tree_cases(rng, (150 if quick else 4000) * scale)
@@ -750,7 +785,20 @@ def corpus():
 
 
 def key(case):
-    return {'spec': case.get('spec'), 'ops': case.get('ops'), 'target': case['target']}
+    return {'spec': case.get('spec'), 'ops': case.get('ops'), 'target': case.get('target'),
+            'targets': case.get('targets')}
+
+
+def seq_cases(rng, subject, targets, cap=10):
+    """the same spec object on several targets: consecutive calls, and one call over a list"""
+    ts = list(targets)
+    if len(ts) < 2:
+        return
+    rng.shuffle(ts)
+    ts = ts[:cap]
+    yield dict(subject, targets=ts)
+    if 'spec' in subject:
+        yield {'spec': {'k': 'list', 'cs': [subject['spec']]}, 'target': {'l': ts}}
 
 
 def _count(j, pred):
@@ -814,6 +862,10 @@ def shrink(case):
                     yield dict(j, cases=j['cases'][:i] + [[a, v]] + j['cases'][i + 1:])
             if j.get('d') is not None:
                 yield dict(j, d=None)
+        elif k == 'list':
+            for i in range(len(j['cs'])):
+                for v in variants(j['cs'][i]):
+                    yield dict(j, cs=j['cs'][:i] + [v] + j['cs'][i + 1:])
         elif k == 'check':
             for f in ('type', 'instance_of', 'equal_to', 'one_of', 'validate', 'd', 'spec'):
                 if j.get(f) is not None:
@@ -838,7 +890,19 @@ def shrink(case):
             for v in opvariants(j['inv']):
                 yield {'inv': v}
 
-    if 'spec' in base:
+    if 'targets' in base:
+        # fewer calls first, then a smaller spec
+        ts = base['targets']
+        for i in range(len(ts)):
+            if len(ts) > 1:
+                yield dict(base, targets=ts[:i] + ts[i + 1:])
+    elif isinstance(base.get('target'), dict) and 'l' in base['target'] and \
+            isinstance(base.get('spec'), dict) and base['spec'].get('k') == 'list':
+        ts = base['target']['l']
+        for i in range(len(ts)):
+            if len(ts) > 1:
+                yield dict(base, target={'l': ts[:i] + ts[i + 1:]})
+    if base.get('spec') is not None:
         for v in variants(base['spec']):
             yield dict(base, spec=v)
     else:
@@ -848,7 +912,7 @@ def shrink(case):
                 c = {k: x for k, x in base.items() if k != 'ops'}
                 c['spec'] = v['leaf']
                 yield c
-    t = base['target']
+    t = base.get('target')
     if isinstance(t, dict) and 't' in t:
         for i, e in enumerate(t['t']):
             if e != {'i': 0}:
